@@ -5,7 +5,7 @@ var c12Width = map[string]int{"FLOAT": 4, "DOUBLE": 8, "INT8": 1, "INT16": 2, "I
 
 func c12Jobs(o Options) []Job {
 	var jobs []Job
-	dimsSets := [][]int{{}, {2}, {2, 2}, {1, 3}, {-1}}
+	dimsSets := [][]int{{}, {2}, {2, 2}, {1, 3}, {-1}, {-2}, {-1, -2}, {-2, -2}, {2, -1}}
 	if o.Tier == "thorough" {
 		dimsSets = [][]int{{}, {1}, {2}, {3}, {4}, {2, 2}, {1, 3}, {3, 1}, {2, 1, 2}, {1, 1, 1, 1}, {1, 2, 1, 2}, {-1}, {2, -1}, {-2, -2}}
 	}
@@ -21,7 +21,10 @@ func c12Jobs(o Options) []Job {
 				}
 			}
 			if neg {
-				count = 2
+				// the payload that the product of the dims (negative, or positive from an even number of negative dims) would fit
+				if count < 0 {
+					count = -count
+				}
 			}
 			// every payload length from nothing to one element too many
 			for n := 0; n <= w*count+w; n++ {
@@ -48,6 +51,12 @@ func c12Jobs(o Options) []Job {
 			jobs = append(jobs, Job{Harness: "onnx.H_C12_params", Case: map[string]interface{}{"dimsA": p[0], "dimsB": p[1], "dtypeB": dt}})
 		}
 	}
+	// the same description loaded twice through NewModel (package gonnx)
+	for _, n := range []int{1, 2} {
+		for _, typed := range []bool{false, true} {
+			jobs = append(jobs, Job{Harness: "gonnx.H_C12_model", Case: map[string]interface{}{"n": n, "typed": typed}})
+		}
+	}
 	return jobs
 }
 
@@ -58,7 +67,7 @@ func init() {
 				"11 element types x {raw little-endian bytes, typed repeated field}",
 				"declared dims: rank 0..2 (thorough 0..4) with element count <= 4, plus negative dims",
 				"raw payload length: EVERY byte length from 0 to expected + one element; typed payload length: expected-1, expected, expected+1 elements; every byte / typed element symbolic (all bit patterns)",
-				"GraphProto.Params with three initializers sharing one symbolic payload under different dims / element types",
+				"GraphProto.Params with three initializers sharing one symbolic payload under different dims / element types", "NewModel twice on one *ModelProto (raw and typed initializers), Params() in between: same weights each time, the description (fingerprint of the whole message) unchanged",
 				"other data_type codes: one symbolic int32 constrained only to differ from the 11 supported codes, with each typed field / raw populated or not",
 			},
 			Outside:     []string{"element counts > 4 (the reader loops are uniform in the count: stated, not proved)", "NaN payload bits (SMT-LIB has a single NaN)", "typed BOOL entries other than 0/1", "both raw and typed populated"},
